@@ -1412,10 +1412,12 @@ def _make_dual_use_func(func_ip, func_oop, domain, out_dtype):
                 )
 
             if ndim == 1 and not tensor_valued:
-                # TypeError for meshgrid in 1d, but expected array (see above)
+                # TypeError for meshgrid in 1d, but expected array (see above).
+                # ValueError is raised by ufunc-like callables, which need
+                # `out` to have the broadcast shape (1, n) of the input.
                 try:
                     func_ip(x, out=out, **kwargs)
-                except TypeError:
+                except (TypeError, ValueError):
                     func_ip(x[0], out=out, **kwargs)
             else:
                 func_ip(x, out=out, **kwargs)
